@@ -31,8 +31,8 @@ import (
 // c20HeldOrders: every interleaving of the given connections' open (o) / hello (h)
 // events with each connection's open before its hello; conns without a hello (silent)
 // contribute only their open.
-func c20HeldOrders(conns []string, silent map[string]bool) [][]string {
-	var evs []string
+func c20HeldOrders(conns []string, silent map[string]bool, extra ...string) [][]string {
+	evs := append([]string(nil), extra...)
 	for _, c := range conns {
 		evs = append(evs, "o"+c)
 		if !silent[c] {
@@ -47,7 +47,7 @@ func c20HeldOrders(conns []string, silent map[string]bool) [][]string {
 			return
 		}
 		for _, e := range evs {
-			if used[e] || (e[0] == 'h' && !used["o"+e[1:]]) {
+			if used[e] || (e[0] == 'h' && len(e) > 1 && !used["o"+e[1:]]) {
 				continue
 			}
 			used[e] = true
@@ -90,8 +90,22 @@ func c20Held(res *vlib.Result, mode string, order []string, kinds map[string]str
 			hasSilentBeforeL = true
 		}
 	}
+	hasFail, failBeforeL := false, false
+	for _, e := range order {
+		if e == "F" {
+			hasFail, failBeforeL = true, true
+		}
+		if e == "hL" && !hasFail {
+			break
+		}
+	}
+	for _, e := range order {
+		if e == "F" {
+			hasFail = true
+		}
+	}
 	opts := ccb.DialOptions{Security: c20Sec(), Stagger: -1, Timeout: 20 * time.Second}
-	if hasSilentBeforeL {
+	if hasSilentBeforeL && !hasFail {
 		opts.Timeout = 1500 * time.Millisecond // a mute connection ahead of the legitimate one holds the loop until the dial's own deadline
 	}
 	dir := ""
@@ -190,8 +204,19 @@ func c20Held(res *vlib.Result, mode string, order []string, kinds map[string]str
 		case <-time.After(80 * time.Millisecond):
 		}
 	}
+	failSentAt := time.Time{}
 	for _, e := range order {
 		name := e[1:]
+		if e == "F" {
+			// the broker reports that it could not get the target to connect back
+			if dialDone == nil {
+				b.reply(false)
+				failSentAt = time.Now()
+				res.Transitions++
+			}
+			settle()
+			continue
+		}
 		switch e[0] {
 		case 'o':
 			if c := open(); c != nil {
@@ -216,6 +241,16 @@ func c20Held(res *vlib.Result, mode string, order []string, kinds map[string]str
 		}
 		settle()
 	}
+	if dialDone == nil && !failSentAt.IsZero() && failBeforeL {
+		// a failure reported by the broker ends the attempt with that error - not with the dial's own
+		// timeout much later, whatever else is pending at the reverse-connect port
+		select {
+		case d := <-dialCh:
+			dialDone = &d
+		case <-time.After(8 * time.Second):
+			res.Violate("C20/held/broker-failure-did-not-end-the-attempt/"+mode, "%s: 8 s after the broker reported a failure the dial (timeout 20 s) had still not returned", id)
+		}
+	}
 	if dialDone == nil {
 		select {
 		case d := <-dialCh:
@@ -232,8 +267,10 @@ func c20Held(res *vlib.Result, mode string, order []string, kinds map[string]str
 			res.Violate("C20/held/returned-conn-is-not-the-legit-one/"+mode, "%s: the returned connection delivered %q, not the token written on the connection that presented the id", id, tok)
 		}
 		defer dialDone.c.Close()
-	} else if !hasSilentBeforeL && conns["L"] != nil {
+	} else if !hasSilentBeforeL && !hasFail && conns["L"] != nil {
 		res.Violate("C20/held/legit-not-returned/"+mode, "%s: %v", id, dialDone.err)
+	} else if failBeforeL && !failSentAt.IsZero() && !strings.Contains(dialDone.err.Error(), "scripted broker failure") {
+		res.Violate("C20/held/broker-failure-reason-lost/"+mode, "%s: the broker reported a failure before any connection presented the id, the dial ended with %q", id, dialDone.err)
 	}
 	// every other connection that reached the port must be closed now that the dial is over
 	var wg sync.WaitGroup
@@ -287,7 +324,26 @@ func c20HeldCases(tier string, yield func(vlib.Case)) {
 			for n, k := range s.kinds {
 				silent[n] = k == "silent"
 			}
-			for _, o := range c20HeldOrders(s.conns, silent) {
+			orders := c20HeldOrders(s.conns, silent)
+			if len(s.conns) == 2 {
+				// the broker's failure reply racing with the connections (it is decisive only when it
+				// comes before the legitimate greeting; after it either outcome is documented)
+				for _, o := range c20HeldOrders(s.conns, silent, "F") {
+					fi, hl := -1, len(o)
+					for i, e := range o {
+						if e == "F" {
+							fi = i
+						}
+						if e == "hL" {
+							hl = i
+						}
+					}
+					if fi < hl {
+						orders = append(orders, o)
+					}
+				}
+			}
+			for _, o := range orders {
 				mode, s, o := mode, s, o
 				var ks []string
 				for _, n := range s.conns[1:] {
